@@ -8,6 +8,7 @@ namespace jv {
 Scheduler* g_sched = nullptr;
 void (*g_yield_extra)(void) = nullptr;
 thread_local uint64_t tl_hook_calls = 0;
+thread_local const int* tl_step_ptr = nullptr;
 static thread_local int tl_task = -1;
 
 void sched_callback_yield() { if (g_sched && tl_task >= 0) g_sched->yield_point(1); }
@@ -26,7 +27,11 @@ void* Scheduler::tramp(void* p) {
     int nxt = -1;
     // deterministic choice of who continues: lowest-numbered unfinished task after a PRNG draw
     std::vector<int> alive; for (auto x : s->tasks) if (!x->finished) alive.push_back(x->id);
-    if (!alive.empty()) nxt = s->use_list ? alive[0] : alive[s->rng.below(alive.size())];
+    if (!alive.empty()) {
+        if (s->use_list) { nxt = alive[0]; auto it = s->list_fin.find(t->id); if (it != s->list_fin.end()) for (int a : alive) if (a == it->second) nxt = a; }
+        else nxt = alive[s->rng.below(alive.size())];
+        s->taken.push_back(strf("F%d:%d", t->id, nxt));
+    }
     if (nxt >= 0) { s->current = nxt; sem_post(&s->tasks[(size_t) nxt]->sem); }
     else sem_post(&s->done_sem);
     return nullptr;
@@ -34,13 +39,14 @@ void* Scheduler::tramp(void* p) {
 
 void Scheduler::run(uint64_t seed) {
     rng.reseed(seed); sem_init(&done_sem, 0, 0);
-    global_yield = switches = hook_yields = cb_yields = 0; list_pos = 0; taken.clear();
+    global_yield = switches = hook_yields = cb_yields = 0; taken.clear();
     if (tasks.empty()) return;
     pthread_attr_t at; pthread_attr_init(&at); pthread_attr_setstacksize(&at, 8u << 20);
     for (auto t : tasks) pthread_create(&t->th, &at, tramp, t);
     pthread_attr_destroy(&at);
     g_sched = this;
-    current = use_list ? 0 : (int) rng.below(tasks.size());
+    current = use_list ? (list_start >= 0 && list_start < (int) tasks.size() ? list_start : 0) : (int) rng.below(tasks.size());
+    taken.push_back(strf("S:%d", current));
     sem_post(&tasks[(size_t) current]->sem);
     sem_wait(&done_sem);
     g_sched = nullptr;
@@ -55,12 +61,14 @@ int Scheduler::pick_other() {
 
 void Scheduler::yield_point(int kind) {
     if (tl_task < 0 || tl_task != current) return;
-    global_yield++; tasks[(size_t) current]->yields++;
+    global_yield++; Task& me_t = *tasks[(size_t) current]; me_t.yields++;
+    { int st = tl_step_ptr ? *tl_step_ptr : 0; if (st != me_t.last_step) { me_t.last_step = st; me_t.step_yields = 0; } me_t.step_yields++; }
     if (kind == 0) hook_yields++; else cb_yields++;
     int target = -1;
     if (use_list) {
-        if (list_pos < list.size() && list[list_pos].first == global_yield) {
-            target = list[list_pos++].second;
+        auto it = list_sw.find(std::make_tuple(current, me_t.last_step, me_t.step_yields));
+        if (it != list_sw.end()) {
+            target = it->second;
             if (target < 0 || target >= (int) tasks.size() || tasks[(size_t) target]->finished || target == current) target = -1;
         }
     } else {
@@ -70,11 +78,21 @@ void Scheduler::yield_point(int kind) {
         if (kind == 1 ? (r & 1) == 0 : (r & ((1ULL << p_switch_log2) - 1)) == 0) target = pick_other();
     }
     if (target < 0) return;
-    taken.push_back({global_yield, target}); switches++;
+    taken.push_back(strf("%d@%d.%llu:%d", current, me_t.last_step, (unsigned long long) me_t.step_yields, target)); switches++;
     if (on_switch) on_switch(current, target);
     int me = current; current = target;
     sem_post(&tasks[(size_t) target]->sem);
     sem_wait(&tasks[(size_t) me]->sem);
+}
+
+void Scheduler::set_list(const std::vector<std::string>& tokens) {
+    use_list = true; list_sw.clear(); list_fin.clear(); list_start = 0;
+    for (auto& t : tokens) {
+        int a = 0, b = 0, st = 0; unsigned long long k = 0;
+        if (sscanf(t.c_str(), "S:%d", &a) == 1) list_start = a;
+        else if (sscanf(t.c_str(), "F%d:%d", &a, &b) == 2) list_fin[a] = b;
+        else if (sscanf(t.c_str(), "%d@%d.%llu:%d", &a, &st, &k, &b) == 4) list_sw[std::make_tuple(a, st, (uint64_t) k)] = b;
+    }
 }
 
 Scheduler::~Scheduler() { for (auto t : tasks) { sem_destroy(&t->sem); delete t; } }
